@@ -26,10 +26,139 @@ COMPONENTS = {
 ASSUMPTIONS = ["well-formed expiration = canonical ASCII decimal numeral without leading zeros",
                "malformed or repeated expiration tags may be collected or kept",
                "an expiration equal to T (same second) may go either way"]
-SHRINK = [["ops"]]
+SHRINK = [["ops"], ["clients", "*", "script"]]
+
+
+def gen_relay(rng):
+    """relay mode: the collector runs as the real periodic task (virtual timer), events arrive over
+    websocket connections, a live subscriber watches ephemeral kinds"""
+    import json
+    backend = rng.choice(["sql", "lmdb"])
+    h = histgen.Hist(rng, nauthors=2)
+    interval = rng.choice([60, 300])
+    T0 = histgen.T0
+    evs = []
+    for _ in range(rng.randint(3, 10)):
+        c = rng.random()
+        if c < 0.35:
+            evs.append(h.ephemeral())
+        elif c < 0.8:
+            v = rng.choice([T0 - 5, T0 + interval // 2, T0 + interval - 1, T0 + interval + 1, T0 + 3 * interval,
+                            T0 + 10 * interval, 999, 10 ** 10])
+            evs.append(h.expiring(str(v)))
+        else:
+            evs.append(h.regular())
+    half = max(1, len(evs) // 2)
+    sub = [["send", json.dumps(["REQ", "live", {"kinds": [20000, 25000, 29999]}])], ["barrier"]]
+    pub = [["barrier"]] + [["send", json.dumps(["EVENT", e])] for e in evs[:half]] + \
+          [["wait", interval * rng.choice([1, 2]) + 5]] + [["send", json.dumps(["EVENT", e])] for e in evs[half:]] + \
+          [["wait", interval + 5], ["send", json.dumps(["REQ", "after", {"kinds": [20000, 25000, 29999]}])],
+           ["send", json.dumps(["REQ", "all", {"since": 1}])]]
+    return {"mode": "relay", "backend": backend, "interval": interval,
+            "clients": [{"script": sub}, {"script": pub}]}
+
+
+def run_relay(case, sim):
+    import json
+    import collections
+    from ..worlds import relay
+    backend = case["backend"]
+    w = relay.RelayWorld(sim, backend, case["clients"], gc_interval=case["interval"], message_timeout=10 ** 6)
+    w.run()
+    viol = []
+    probes = collections.Counter()
+    submitted = []
+    pub = w.clients[1]
+    oks = {}
+    for s, t in pub.transcript:
+        try:
+            m = json.loads(t)
+        except Exception:
+            continue
+        if isinstance(m, list) and len(m) == 4 and m[0] == "OK":
+            oks[m[1]] = m[2]
+    for fr in pub.frames:
+        m = json.loads(fr["text"])
+        if m[0] == "EVENT":
+            submitted.append((m[1], fr["wall_deliver"], fr["t_deliver"]))
+    live = collections.Counter()
+    for s, t in w.clients[0].transcript:
+        try:
+            m = json.loads(t)
+        except Exception:
+            continue
+        if isinstance(m, list) and len(m) == 3 and m[0] == "EVENT":
+            live[m[2]["id"]] += 1
+    after = []
+    eose_after = False
+    for s, t in pub.transcript:
+        try:
+            m = json.loads(t)
+        except Exception:
+            continue
+        if isinstance(m, list) and len(m) == 3 and m[0] == "EVENT" and m[1] == "after":
+            after.append(m[2])
+        if m == ["EOSE", "after"]:
+            eose_after = True
+    final = w.final["dump"]
+    t_end = w.env.sim.clock.wall()
+    # collector passes happened at EPOCH + k * interval
+    interval = case["interval"]
+    last_pass = histgen.T0 + int((t_end - histgen.T0) // interval) * interval
+    if last_pass > histgen.T0:
+        probes["gc_passes_seen"] = int((t_end - histgen.T0) // interval)
+    t_req_after = None
+    for fr in pub.frames:
+        if fr["text"].startswith('["REQ", "after"'):
+            t_req_after = fr["wall_deliver"]
+    for ev, t_sub, _ in submitted:
+        if oks.get(ev["id"]) is not True:
+            continue
+        if model.is_ephemeral(ev["kind"]):
+            probes["ephemeral_accepted"] += 1
+            if live[ev["id"]] != 1 and w.final.get("alive", {}).get(0):
+                viol.append({"cls": "ephemeral-not-delivered-live", "sig": "ephemeral-not-delivered-live|%s|n=%d" % (backend, min(live[ev["id"]], 2)),
+                             "detail": {"event": oracles.brief(ev), "pushes": live[ev["id"]]}})
+            # a pass ran between its submission and the later REQ?
+            if t_req_after is not None:
+                passes_between = int((t_req_after - histgen.T0) // interval) > int((t_sub - histgen.T0) // interval)
+                if passes_between and any(a["id"] == ev["id"] for a in after):
+                    viol.append({"cls": "ephemeral-queryable-after-pass", "sig": "ephemeral-queryable-after-pass|%s" % backend,
+                                 "detail": {"event": oracles.brief(ev)}})
+            continue
+        exps = [t[1] for t in ev["tags"] if t[0] == "expiration"]
+        if len(exps) == 1 and model.canon_expiration(exps[0]) is not None:
+            v = model.canon_expiration(exps[0])
+            # passes that ran while the event was stored: at times p in (t_sub, t_end], p = T0 + k*interval
+            k0 = int((t_sub - histgen.T0) // interval) + 1
+            k1 = int((t_end - histgen.T0) // interval)
+            pass_times = [histgen.T0 + k * interval for k in range(k0, k1 + 1)]
+            if any(v < p - 1 for p in pass_times) and ev["id"] in final:
+                viol.append({"cls": "expired-not-collected", "sig": "expired-not-collected|%s|%ddigits" % (backend, len(exps[0])),
+                             "detail": {"event": oracles.brief(ev), "passes": pass_times[:4]}})
+            if all(v > p + 1 for p in pass_times) and ev["id"] not in final:
+                viol.append({"cls": "unexpired-collected", "sig": "unexpired-collected|%s|%ddigits" % (backend, len(exps[0])),
+                             "detail": {"event": oracles.brief(ev), "passes": pass_times[:4], "t_end": t_end}})
+        elif not exps and ev["id"] not in final:
+            viol.append({"cls": "plain-event-collected", "sig": "plain-event-collected|" + backend,
+                         "detail": {"event": oracles.brief(ev)}})
+    if not eose_after and w.final.get("alive", {}).get(1):
+        probes["no_eose_after"] += 1
+    probes["mode_relay"] = 1
+    probes["backend_" + backend] = 1
+    seen, v2 = set(), []
+    for v in viol:
+        if v["sig"] not in seen:
+            seen.add(v["sig"])
+            v2.append(v)
+    return {"violations": v2, "nontrivial": probes["gc_passes_seen"] > 0 and probes["ephemeral_accepted"] > 0,
+            "probes": dict(probes),
+            "signature": hashlib.sha256(repr((backend, [(e["kind"], [t[1] for t in e["tags"] if t[0] == "expiration"]) for e, _, _ in submitted], case["interval"])).encode()).hexdigest()[:16]}
 
 
 def gen(rng, knobs):
+    if rng.random() < 0.3:
+        return gen_relay(rng)
     backend = rng.choice(["sql", "lmdb"])
     h = histgen.Hist(rng, nauthors=2)
     adv1 = rng.choice([0, 1, 100, 5000, 86400])
@@ -65,6 +194,9 @@ def gen(rng, knobs):
 
 
 def sample(case):
+    if case.get("mode") == "relay":
+        return {"mode": "relay", "backend": case["backend"], "gc_interval": case["interval"],
+                "publisher": [i[0] if i[0] != "send" else i[1][:60] for i in case["clients"][1]["script"]][:10]}
     return {"backend": case["backend"],
             "ops": [oracles.brief(o[1]) if o[0] == "add" else o for o in case["ops"]][:14]}
 
@@ -123,6 +255,8 @@ def check(obs, backend):
 
 
 def run(case, sim):
+    if case.get("mode") == "relay":
+        return run_relay(case, sim)
     w, obs = store.run_store(sim, case["backend"], case["ops"])
     viol, nontrivial = check(obs, case["backend"])
     seen, v2 = set(), []
